@@ -329,3 +329,58 @@ func verifConv[A any, B any](in []A) []B {
 	}
 	return out
 }
+
+// verifNodeLists: short lists of values (v1 paths and hunk value lists).
+func verifNodeLists(tier int) [][]JsonNode {
+	vals := []JsonNode{voidNode{}, jsonNumber(0), jsonNumber(1), jsonNumber(-1), jsonString("a"), jsonString("a/b"), jsonString("~"), jsonString("0"),
+		jsonNull(nil), jsonArray{}, jsonObject{}, jsonArray{jsonString("MERGE")}, jsonArray{jsonString("set")}}
+	out := [][]JsonNode{nil, {}}
+	for _, v := range vals {
+		out = append(out, []JsonNode{v})
+	}
+	out = append(out, []JsonNode{jsonString("a"), jsonNumber(0)}, []JsonNode{jsonNumber(1), jsonString("b")},
+		[]JsonNode{jsonArray{jsonString("MERGE")}, jsonString("a")}, []JsonNode{jsonString("a"), jsonObject{}})
+	if tier >= 1 {
+		out = append(out, []JsonNode{jsonNumber(1), jsonNumber(2)}, []JsonNode{voidNode{}, jsonNumber(1)},
+			[]JsonNode{jsonArray{jsonString("MERGE")}, jsonString("a"), jsonString("b")})
+	}
+	return out
+}
+
+// verifDiffs: v1 hunk sequences of length 0..2 (a sample of pairs for length 2).
+func verifDiffs(tier int) []Diff {
+	var hs []DiffElement
+	vals := [][]JsonNode{nil, {}, {jsonNumber(1)}, {jsonString("a")}, {voidNode{}}, {jsonNull(nil)}, {jsonObject{}}, {jsonNumber(1), jsonNumber(2)}}
+	for _, p := range verifNodeLists(0) {
+		for _, o := range vals {
+			for _, n := range vals {
+				hs = append(hs, DiffElement{Path: p, OldValues: o, NewValues: n})
+			}
+		}
+	}
+	out := []Diff{nil, {}}
+	for _, h := range hs {
+		out = append(out, Diff{h})
+	}
+	step := 53
+	if tier >= 2 {
+		step = 11
+	}
+	for i := 0; i < len(hs); i += step {
+		for j := 0; j < len(hs); j += step {
+			out = append(out, Diff{hs[i], hs[j]})
+		}
+	}
+	return out
+}
+
+func verifCloneDiff(d Diff) Diff {
+	if d == nil {
+		return nil
+	}
+	out := make(Diff, len(d))
+	for i, e := range d {
+		out[i] = DiffElement{Path: verifCloneNodes(e.Path), OldValues: verifCloneNodes(e.OldValues), NewValues: verifCloneNodes(e.NewValues)}
+	}
+	return out
+}
